@@ -294,14 +294,14 @@ def file_discovery_agreement(ctx, cr):
         ctx.lost(rule, rule + ":execute", EX)
         return
     sites = {}
-    for k in [EX] + [x for x in cr.fns if x.startswith(EX + "::{closure")]:
+    for k in flow.unit_functions(cr, EX, ("commands::validate::",)):
         for bi, t in M.iter_calls(cr.fns[k]):
             p = M.norm_path(t["fn"].get("path", ""))
             if p.split("::")[-1] in KIND_PREDICATES:
                 sites.setdefault(p, []).append(t.get("ln"))
     total = sum(len(v) for v in sites.values())
-    if total < 4:
-        ctx.lost(rule, rule + ":floor", "only %d file-kind tests found in Validate::execute (floor 4)" % total)
+    if total < 2:
+        ctx.lost(rule, rule + ":floor", "only %d file-kind tests found in Validate::execute and its helpers (floor 2)" % total)
         return
     major = max(sites, key=lambda p: len(sites[p]))
     deviants = {p: v for p, v in sites.items() if p != major and p.split("::")[-1] == major.split("::")[-1]}
